@@ -252,12 +252,13 @@ class PeriodIter:
     def __init__(self, *args: Any):
         self._length = len(args[0])
         self._iter = list(zip(*args))
+        self._cursor = iter(self._iter)
 
     def __iter__(self):
         yield from self._iter
 
     def __next__(self):
-        return next(self._iter)
+        return next(self._cursor)
 
     def __len__(self):
         return self._length
